@@ -322,3 +322,21 @@ pub fn iter_search(seed: u64, n: u64, marker: &str, mode: &str) -> i32 {
     println!("SEARCH tried={} found=0", n);
     0
 }
+
+
+// ---------------------------------------------------------------------------------------------
+// C16 oracle
+pub fn check_scopes(n: u32) -> Result<String, String> {
+    let v = match std::panic::catch_unwind(|| crate::scope::calculate_scopes(n)) { Ok(v) => v, Err(_) => return Err(format!("calculate_scopes({}) panicked", n)) };
+    let pos = |t: u8, r: u8| (t < r && r <= 48) || (t == 48 && r == 49);
+    if v.len() != n as usize { return Err(format!("{} scopes for n={}", v.len(), n)); }
+    if (v[0].turn_from, v[0].river_from) != (0, 1) { return Err(format!("first scope starts at ({},{})", v[0].turn_from, v[0].river_from)); }
+    let l = v[v.len() - 1];
+    if (l.turn_to, l.river_to) != (48, 49) { return Err(format!("last scope ends at ({},{})", l.turn_to, l.river_to)); }
+    for (k, s) in v.iter().enumerate() {
+        if !pos(s.turn_from, s.river_from) || !pos(s.turn_to, s.river_to) { return Err(format!("scope[{}] = ({},{})..({},{}) names an invalid position", k, s.turn_from, s.river_from, s.turn_to, s.river_to)); }
+        if (s.turn_from, s.river_from) > (s.turn_to, s.river_to) { return Err(format!("scope[{}] steps backwards", k)); }
+        if k + 1 < v.len() && (v[k + 1].turn_from, v[k + 1].river_from) != (s.turn_to, s.river_to) { return Err(format!("scope[{}] does not start where scope[{}] ended", k + 1, k)); }
+    }
+    Ok(format!("n={} tiles", n))
+}
